@@ -21,6 +21,7 @@ import (
 	"bytes"
 	"encoding/json"
 	"errors"
+	"net/url"
 	"os"
 	"strconv"
 	"strings"
@@ -365,6 +366,9 @@ func DeleteAllUserSavedQueries(myid int64) error {
 
 func DeleteUserSavedQuery(ctx *fasthttp.RequestCtx, myid int64) {
 	queryName := utils.ExtractParamAsString(ctx.UserValue("qname"))
+	if unescaped, err := url.PathUnescape(queryName); err == nil {
+		queryName = unescaped
+	}
 	deleted, err := deleteUsq(queryName, myid)
 	if err != nil {
 		log.Errorf("DeleteUserSavedQuery: Failed to delete user saved query %v, err=%v", queryName, err)
@@ -511,6 +515,9 @@ func ReadExternalUSQInfo(fName string, myid int64) error {
 
 func SearchUserSavedQuery(ctx *fasthttp.RequestCtx, myid int64) {
 	queryName := utils.ExtractParamAsString(ctx.UserValue("qname"))
+	if unescaped, err := url.PathUnescape(queryName); err == nil {
+		queryName = unescaped
+	}
 
 	found, usqInfo, err := getUsqOne(queryName, myid)
 
